@@ -66,6 +66,10 @@ CHECKS['C08'] = dict(engine='W-loop', level='exploration', design='5/C08',
    text='seeded search over histories of load, clone, move, destruct, enable_commands, set_living_name, command, present/say and heart-beat operations on 3-12 objects (thorough: also ~300) and two users, issued from top level and re-entrantly from create/init/id/catch_tell/move_or_destruct/heart_beat/command hooks that move, clone and destruct themselves, their environment or siblings or raise errors, with failing variants (move into itself/own inventory, clone of a clone, missing file, master::valid_object veto) and LPC errors injected at seeded instructions. At every backend cycle and at walk points inside hooks the simulator walks the driver structures (obj_list, destruct list, name table, inventories, environments, sentences, living hash, connection slots) for: name <-> live object bijection, one inventory per object, forest, no destructed object reachable; after every command an LPC-visible dump (environment, all_inventory, find_object, objects, livings, users, held references) is checked for internal consistency, for references to destructed objects reading 0, for hooks never running in an object destructed in an earlier cycle, and - in hook-free histories - for equality with an abstract world. Sampling, not proof.',
    note='the order in which hooks fire is not modelled (hook histories are judged for consistency only); virtual objects and replace_program are not driven',
    technique='deterministic simulation with fault injection (re-entrant hook schedules, injected errors, structure invariants checked during the run, reference model for hook-free histories)')
+CHECKS['C06'] = dict(engine='W-loop', level='exploration', design='5/C06',
+   text='seeded search over value-plumbing scenarios executed as eight identical rounds in one driver life: a user object and two helper objects build arrays, mappings, strings, buffers, class instances, function pointers (plain, bound arguments, functional, anonymous), nested and self-referencing containers and cloned objects, keep them in variables, in each other, in other objects, in pending call_outs (by name and by function pointer) and input_to carry-over arguments, pass them through copying/sorting/filtering/mapping/printing/saving efuns, operators, foreach, catch/throw and erroring callbacks, share one value between more than 65535 holders, optionally with an LPC error injected at the same instruction of every round; each round ends by clearing, removing or firing the callbacks and destructing what it created. Oracle: live heap bytes (sanitizer allocator) must not grow round after round over rounds 5-8 and object/program counts must be back; values read back must be intact and identical in every round; AddressSanitizer reports use-after-free/double free. Sampling, not proof.',
+   note='leaks that grow less than one allocation per round, or only on paths the op alphabet does not reach, are not seen; the driver statistics counters (arrays, malloced strings) drift on the unchanged tree while the heap stays level and are therefore reported as a probe only',
+   technique='deterministic simulation with fault injection (conservation by slope over repeated rounds in one simulated driver life, injected LPC errors, sanitizer as use-after-free oracle)')
 PENDING = 'check not built yet (work in progress, see DESIGN.md section 10)'
 
 def main():
